@@ -24,7 +24,10 @@ PROBED = UNIVERSE + [NEVER]
 RULE = ("A real pyrtma.Client on the simulated network against the real manager. Hypothesis draws sequences (<=25) of subscribe / "
         "unsubscribe / pause_subscription / resume_subscription with lists over a 6-type universe (duplicates, types already in the "
         "target state, ALL_MESSAGE_TYPES alone or mixed), unsubscribe_from_all / pause_all_subscriptions / resume_all_subscriptions, "
-        "and subscription_context / paused_subscription_context entered with lists overlapping the current state. After every call a "
+        "and subscription_context / paused_subscription_context entered with lists overlapping the current state; new sessions of the "
+        "same Client object (disconnect()+connect(), or connect() after the connection was lost) in between; and in one configuration "
+        "a second instance of the same module (same static id, both allow_multiple) issuing a third of the operations, each instance "
+        "being checked after every operation of either. After every call a "
         "probe module publishes one message per type and the delivered set is read from the bytes on the client's connection; it must "
         "equal client.subscribed_types, be disjoint from paused_subscribed_types, be unchanged by refused requests, equal the entry "
         "state after leaving a context, and satisfy the documented post-conditions. The thorough tier additionally enumerates "
@@ -56,10 +59,20 @@ class C02World:
                                     timecode=self.cs.timecode))
             self.cs.pump()
             self.client = self.cs.new_client(module_id=20, timecode=self.cs.timecode)
-            self.client.connect("127.0.0.1:7111")
+            self.twin = None
+            if cfg.get("twin"):
+                # a second instance of the same module (same static id, both allow_multiple): each connection has its own
+                # subscriptions at the manager
+                self.client.connect("127.0.0.1:7111", allow_multiple=True)
+                self.cs.pump()
+                self.twin = self.cs.new_client(module_id=20, timecode=self.cs.timecode)
+                self.twin.connect("127.0.0.1:7111", allow_multiple=True)
+            else:
+                self.client.connect("127.0.0.1:7111")
             self.cs.pump()
             self.conn = self.cs.conn_of(self.client)
             self.conn.take()
+            self.twin_conn = self.cs.conn_of(self.twin) if self.twin else None
             self.seq = 0
         except BaseException:
             self.cs.close()
@@ -116,10 +129,56 @@ class C02World:
             self.viol("paused-delivered", f"after {ctxt}: paused types {sorted(paused & d)} are delivered")
         return sub, paused, d
 
+    def reconnect(self, op):
+        """The same Client object starts a new session: after disconnect(), or after its connection was lost (the manager
+        dropped it; the client notices on its next read).  Whatever the client reports afterwards must be what is delivered."""
+        from pyrtma.exceptions import ConnectionLost
+
+        c = self.client
+        if op["how"] == "lost":
+            c._sock.sendall(P.build(1234, b"", num_data_bytes=-5, src_mod=c.module_id, timecode=self.cs.timecode))
+            self.cs.pump()
+            try:
+                for _ in range(50):
+                    if c.read_message(timeout=0) is None and not c._sock.rx and not c._sock.rx_fin:
+                        break
+                raise HarnessError("the manager dropped the client but read_message never raised ConnectionLost")
+            except ConnectionLost:
+                pass
+        else:
+            c.disconnect()
+            self.cs.pump()
+        c.connect("127.0.0.1:7111")
+        self.cs.pump()
+        self.alive()
+        self.conn = self.cs.conn_of(c)
+        self.conn.take()
+        sub, paused, d = self.check_agreement(f"reconnect({op['how']})")
+        if op.get("resume_all"):
+            # nothing is paused in a new session: resuming everything must not bring anything back
+            c.resume_all_subscriptions()
+            self.cs.pump()
+            self.check_agreement(f"reconnect({op['how']}) + resume_all_subscriptions()")
+
     def apply(self, op):
         from pyrtma.exceptions import InvalidSubscription
 
         self.trace.append(op)
+        if self.twin is not None:
+            if op["op"] == "reconnect":
+                return
+            if op.get("who"):
+                # the operation is issued by the second instance; afterwards the first one is checked as well
+                self.client, self.twin, self.conn, self.twin_conn = self.twin, self.client, self.twin_conn, self.conn
+                try:
+                    self.trace.pop()
+                    return self.apply(dict(op, who=0))
+                finally:
+                    self.client, self.twin, self.conn, self.twin_conn = self.twin, self.client, self.twin_conn, self.conn
+                    self.trace[-1] = op
+                    self.check_agreement(f"{op['op']}({op.get('types', [])}) issued by the other instance of the module")
+        if op["op"] == "reconnect":
+            return self.reconnect(op)
         c = self.client
         name = op["op"]
         types = op.get("types", [])
@@ -217,7 +276,15 @@ def run_case(cfg, ops, res: Result = None):
             sub, paused = w.reported()
             st0 = abstract(sub, paused)
             w.apply(op)
+            if w.twin is not None and not op.get("who"):
+                w.client, w.twin, w.conn, w.twin_conn = w.twin, w.client, w.twin_conn, w.conn
+                try:
+                    w.check_agreement(f"{op['op']}({op.get('types', [])}) issued by the other instance of the module")
+                finally:
+                    w.client, w.twin, w.conn, w.twin_conn = w.twin, w.client, w.twin_conn, w.conn
             if res is not None:
+                if w.twin is not None:
+                    res.count("ops-with-second-instance")
                 res.count("ops")
                 res.count("op-" + op["op"])
                 if st0 != tuple("-" * len(UNIVERSE)):
@@ -227,7 +294,7 @@ def run_case(cfg, ops, res: Result = None):
         w.close()
 
 
-CFGS = [{"timecode": False, "timing": True}, {"timecode": True, "timing": False}]
+CFGS = [{"timecode": False, "timing": True}, {"timecode": True, "timing": False}, {"timecode": False, "timing": False, "twin": True}]
 
 
 def st_types():
@@ -236,11 +303,16 @@ def st_types():
 
 
 def st_op():
+    return st.tuples(_st_op(), st.sampled_from([0, 0, 1])).map(lambda x: dict(x[0], who=x[1]) if x[1] else x[0])
+
+
+def _st_op():
     return st.one_of(
         st.tuples(st.sampled_from(OPS), st_types()).map(lambda x: {"op": x[0], "types": x[1]}),
         st.tuples(st.sampled_from(OPS), st_types()).map(lambda x: {"op": x[0], "types": x[1]}),
         st.sampled_from(BULK).map(lambda n: {"op": n}),
         st.tuples(st.sampled_from(CTX), st_types(), st.booleans()).map(lambda x: {"op": x[0], "types": x[1], "probe_inside": x[2]}),
+        st.tuples(st.sampled_from(["clean", "lost", "lost"]), st.booleans()).map(lambda x: {"op": "reconnect", "how": x[0], "resume_all": x[1]}),
     )
 
 
@@ -254,7 +326,7 @@ def shard(seed, n, max_len, quick, idx):
         if len(res.samples) < 2:
             res.sample({"cfg": CFGS[ci], "ops": ops[:12]})
 
-    hyp_run(body, st.tuples(st.integers(0, 1), st.lists(st_op(), min_size=3, max_size=max_len)), seed, n, res)
+    hyp_run(body, st.tuples(st.sampled_from([0, 1, 0, 1, 2]), st.lists(st_op(), min_size=3, max_size=max_len)), seed, n, res)
     # exhaustive sub-domain (thorough: complete; quick: the slice idx of 16*8)
     res.merge(enumerate_small(idx, 16, 1))
     return res
